@@ -22,7 +22,7 @@ META = {'title': 'Loaders are total: any file or failing asset gives Ok/Err, nev
                  're-read, is outside the model',
                  'miniz_oxide (zlib), flate2 (gzip) and delharc (LH5) are parameters of the model: their result '
                  '(failure / produced length / panic) is an input; they are fuzzed, not proved',
-                 'the repaired variants (Fix.all) are models of the candidate repairs in proposed_fixes/C15-*.diff; '
+                 'the repaired variants (Fix.all) are models of the repairs committed to /repo (fix commits listed in known_findings.json; diffs kept in proposed_fixes/applied-C15-*.diff); '
                  'which repairs the tree under test contains is detected per run from one witness input per site',
                  'frames after a load, gzip wrapping and Player::play are observed (no panic), not modelled',
                  'allocation = largest single request seen by a counting global allocator during the load call(s); '
